@@ -202,8 +202,8 @@ fn run<B: Buffer + Debug + PartialEq + FromIterator<u8>>(cap: usize, ops: &[Op],
         }
         ensure!(&*buf == model.as_slice(), "wrong-contents", "{}: contents are {} (len {}), model has {} (len {})", ctx(), hex_short(&buf, 40), buf.len(), hex_short(&model, 40), model.len());
         // Debug output depends only on the visible contents
-        ensure!(format!("{:?}", buf) == format!("{:?}", model.as_slice()), "wrong-debug", "{}: Debug output {:?} differs from the slice's {:?}", ctx(), buf, model.as_slice());
-        ensure!(format!("{:x?}", buf) == format!("{:x?}", model.as_slice()), "wrong-debug", "{}: {{:x?}} output differs from the slice's", ctx());
+        ensure!(model.len() > 4096 || format!("{:?}", buf) == format!("{:?}", model.as_slice()), "wrong-debug", "{}: Debug output {:?} differs from the slice's {:?}", ctx(), buf, model.as_slice());
+        ensure!(model.len() > 4096 || format!("{:x?}", buf) == format!("{:x?}", model.as_slice()), "wrong-debug", "{}: {{:x?}} output differs from the slice's", ctx());
         // equality depends only on the visible contents: compare with a buffer reached by a different history
         let other: B = model.iter().copied().collect();
         ensure!(buf == other && other == buf, "equality-depends-on-history", "{}: not equal to a buffer collected from the same contents {}", ctx(), hex_short(&model, 40));
@@ -223,6 +223,13 @@ fn run<B: Buffer + Debug + PartialEq + FromIterator<u8>>(cap: usize, ops: &[Op],
             changed[l - 1] ^= 1;
             let changed: B = changed.into_iter().collect();
             ensure!(buf != changed, "unequal-contents-compare-equal", "{}: equal to a buffer whose last element differs", ctx());
+            // ... and one that differs in exactly one other position (first, middle, or chosen by the step number)
+            for pos in [0, l / 2, idx % l] {
+                let mut other: Vec<u8> = model.clone();
+                other[pos] ^= 0x80;
+                let other: B = other.into_iter().collect();
+                ensure!(buf != other && other != buf, "unequal-contents-compare-equal", "{}: equal to a buffer that differs only in element {}", ctx(), pos);
+            }
         }
     }
     obs.count("ops", ops.len() as u64);
@@ -269,7 +276,7 @@ fn exh_ops() -> Vec<Op> {
 
 impl Prop for C18 {
     const ID: &'static str = "C18";
-    const RULE: &'static str = "stateful / model-based: N in {0,1,2,3,4,5,7,8,16,33,64,255,256} (and the Vec-backed Buffer impl with an unbounded model) x operation histories of length 0..40 over {push(b), extend_from_slice(s) with |s| in 0..=N+3, truncate(k) with k in 0..=N+3 or usize::MAX, clear, from_iter of <= N bytes through 13 iterator kinds (slice, Vec, from_fn, filter, take_while, skip_while, chain, flat_map, map_while, step_by, two with a loose but legal size_hint, and one that is not fused, i.e. yields bytes again after its first None) - the model is what the same iterator yields into a std Vec}; model = Vec<u8> with a capacity check. After every step: same Ok/Err(OutOfMemory), same contents, failing op leaves contents unchanged, Debug / {:x?} equal the slice's, equality with a buffer reached by a different history (incl. one with a stale byte beyond its length), inequality with a shorter / changed buffer. Non-trivial: the history contains a failing operation and a truncate/clear that shrank the buffer followed by a growing operation. Distinct = distinct (N, history).";
+    const RULE: &'static str = "stateful / model-based: N in {0,1,2,3,4,5,7,8,16,33,64,255,256} (and the Vec-backed Buffer impl with an unbounded model, which now and then is extended by 65 536 .. 300 000 bytes at once) x operation histories of length 0..40 over {push(b), extend_from_slice(s) with |s| in 0..=N+3, truncate(k) with k in 0..=N+3 or usize::MAX, clear, from_iter of <= N bytes through 13 iterator kinds (slice, Vec, from_fn, filter, take_while, skip_while, chain, flat_map, map_while, step_by, two with a loose but legal size_hint, and one that is not fused, i.e. yields bytes again after its first None) - the model is what the same iterator yields into a std Vec}; model = Vec<u8> with a capacity check. After every step: same Ok/Err(OutOfMemory), same contents, failing op leaves contents unchanged, Debug / {:x?} equal the slice's, equality with a buffer reached by a different history (incl. one with a stale byte beyond its length), inequality with a shorter buffer and with buffers that differ in exactly one element (last, first, middle, one more). Non-trivial: the history contains a failing operation and a truncate/clear that shrank the buffer followed by a growing operation. Distinct = distinct (N, history).";
     type Case = Case;
     type Input = Input;
 
@@ -296,6 +303,8 @@ impl Prop for C18 {
             .iter()
             .map(|o| match o {
                 OpTok::Push(b) => Op::Push(*b),
+                // the growable buffer once in a while gets a slice beyond 2^16 / 2^18 / 2^20 bytes (capacity thresholds)
+                OpTok::Extend(l, s) if n == usize::MAX && *l >= 65_300 => Op::Extend(vec![(*s & 0xff) as u8; [65_536usize, 262_143, 262_144, 262_145, 300_000][(*s >> 8) as usize % 5]]),
                 OpTok::Extend(l, s) => Op::Extend(bytes_from(*s, pick(*l, base + 4))),
                 OpTok::Truncate(_, true) => Op::Truncate(usize::MAX),
                 OpTok::Truncate(k, false) => Op::Truncate(pick(*k, base + 4)),
